@@ -24,6 +24,10 @@ func Symbolic() bool                   { return true }
 func Param(name string, def int) int   { return def }
 func Goroutines() int                  { return 0 }
 func Yield()                           {}
+
+// Jitter marks a point inside a harness transport where, natively, a replay of a schedule-dependent
+// counterexample pauses for a random few microseconds (the interpreter explores schedules itself).
+func Jitter() {}
 func AllocLimit(n int)                 {}
 func SameBacking(a, b []byte) bool     { return false }
 
